@@ -620,3 +620,265 @@ Proof.
   - split; [vm_compute; reflexivity|]. exists 7%Z, 10%Z. eexists. eexists.
     split; [vm_compute; reflexivity|]. repeat split; vm_compute; reflexivity.
 Qed.
+
+(* ======================================================================== *)
+(* (7) JOIN POINTS ON BYTES, through the real fan-out.  Remux/RemuxFanout.v
+   turns one publication - the events of the end-to-end op c06.e2e: messages,
+   HTTP-TS subscribers and RTSP players joining anywhere - into what happens at
+   the group ([outs]: the callbacks of the two remuxers in the order
+   broadcastByRtmpMsg makes them), runs the fan-out model of C01 / C02
+   (Group/GroupFanout.v: HTTP-TS GOP cache, RtspConfig.OutWaitKeyFrameFlag) on
+   that history and reads every label a consumer was sent as the bytes it stands
+   for ([fo_items]).  That composition is what ./check C06 compares with
+   logic.Group byte for byte.  The theorems below are about it. *)
+From Lal Require Group.GroupFanout Group.GroupFanoutProofs Group.GroupFanoutRtspProofs
+  Remux.RemuxFanout Remux.RemuxFanoutTsProofs Remux.RemuxFanoutProofs Remux.RemuxFanoutRunProofs.
+Module GF := Lal.Group.GroupFanout.
+Module GP := Lal.Group.GroupFanoutProofs.
+Module GR := Lal.Group.GroupFanoutRtspProofs.
+Module RF := Lal.Remux.RemuxFanout.
+Module RFP := Lal.Remux.RemuxFanoutProofs.
+Module RFR := Lal.Remux.RemuxFanoutRunProofs.
+
+(* An HTTP-TS subscriber that joins at ANY point ([ob] before it, any later
+   events [o1] without a frame, then the frame [e], then [o2]; no cap on a
+   cached GOP), admitted at [e] because a GOP is cached or [e] is a boundary:
+   - BYTES: it is sent the PAT/PMT in force, the cached frames, then every
+     frame and every later PAT/PMT block in order;
+   - the frames it is sent ([L]) are consecutive frames of the publication up
+     to its end - none missing, none twice - and the first one is a boundary;
+   - a demultiplexer (C09's reference) recovers from them, per track, exactly
+     those frames of the remuxer: what c06_video_message / c06_audio_frames say
+     of each frame holds of the consumer's stream from its starting point on. *)
+Theorem c06_httpts_any_join : forall b64 hex tool hc rtsp hls evs g' outs cf ob id o1 e o2,
+  RF.fan_outs b64 hex tool hc rtsp hls evs = (g', outs) -> Forall msg_ok (RFR.fev_msgs evs) ->
+  GF.cf_ts_max cf = 0%nat ->
+  outs = RF.FoIn true :: (ob ++ RF.FoJoin GF.KTs id :: o1) ++ RF.FoTs e :: o2 ->
+  RFP.fo_ts_evs o1 = [] ->
+  existsb (fun x => GF.c_id x =? id) (GF.g_subs (GF.run cf (RF.fan_hist (RF.FoIn true :: ob)))) = false ->
+  let body := ob ++ RF.FoJoin GF.KTs id :: o1 in
+  (0 < RFP.cached_gops cf body)%nat \/ te_boundary e = true ->
+  let L := RFP.cache_evs cf body ++ RFP.fo_ts_evs (RF.FoTs e :: o2) in
+  exists c', GP.find_sub (GF.run cf (RF.fan_hist outs)) id = Some c' /\ GF.admitted c' = true /\
+    RF.fo_items outs (GF.c_out c')
+      = RFP.pat_in_force body ++ map (fun x => RF.ITs (ev_bytes x)) (RFP.cache_evs cf body) ++ RFP.ts_items (RF.FoTs e :: o2)
+    /\ (exists pre, RFP.fo_ts_evs outs = pre ++ L)
+    /\ (exists e0 rest, L = e0 :: rest /\ te_boundary e0 = true)
+    /\ forall audio : bool, exists cc,
+         demux_pid (if audio then pid_audio else pid_video) (ev_packets L)
+         = Some (expected_units cc (map te_frame (track_evs audio L))).
+Proof.
+  intros b64 hex tool hc rtsp hls evs g' outs cf ob id o1 e o2 Hrun Hm Hmax Hout Hq Hnew body Hadm L.
+  destruct (RFR.fan_outs_run b64 hex tool hc rtsp hls evs g' _ Hrun Hm) as (mid & x' & Hout2 & Hnin & Hinv & Hwf & _).
+  (* the shape of [outs]: o2 ends with the end of the input *)
+  assert (Hsplit : exists o2', o2 = o2' ++ [RF.FoIn false] /\ mid = body ++ RF.FoTs e :: o2').
+  { rewrite Hout in Hout2. injection Hout2 as Hout2. fold body in Hout2.
+    destruct (exists_last (l := o2)) as (o2' & last & ->).
+    { intro E. subst o2. assert (Hl : body ++ [RF.FoTs e] = mid ++ [RF.FoIn false]) by exact Hout2.
+      apply app_inj_tail in Hl. destruct Hl as [_ Hl]. discriminate. }
+    exists o2'. replace (body ++ RF.FoTs e :: o2' ++ [last]) with ((body ++ RF.FoTs e :: o2') ++ [last]) in Hout2
+      by (rewrite <- app_assoc; reflexivity).
+    apply app_inj_tail in Hout2. destruct Hout2 as [-> ->]. split; reflexivity. }
+  destruct Hsplit as (o2' & Ho2 & Hmid).
+  assert (Hbody : RFP.no_in_out body).
+  { unfold RFP.no_in_out in *. rewrite Hmid in Hnin. apply Forall_app in Hnin. exact (proj1 Hnin). }
+  assert (Hob : RFP.no_in_out ob /\ RFP.no_in_out o1).
+  { unfold RFP.no_in_out, body in *. apply Forall_app in Hbody. destruct Hbody as [A B]. inversion B; subst. now split. }
+  destruct Hob as [Hob Ho1].
+  destruct (RFP.httpts_join_items cf ob id o1 Hob Ho1 Hq Hnew e o2 Hadm) as (c' & Hf & _ & Ha & Hitems).
+  cbv zeta in Hf, Hitems. rewrite <- Hout in Hf, Hitems. fold body in Hitems.
+  exists c'. split; [exact Hf|]. split; [exact Ha|]. split; [exact Hitems|].
+  destruct (RFP.cache_evs_suffix cf body Hmax) as (pre & Hpre & Hhead & Hne).
+  assert (HL : RFP.fo_ts_evs outs = pre ++ L).
+  { rewrite Hout. fold body. unfold L.
+    change (RFP.fo_ts_evs (RF.FoIn true :: body ++ RF.FoTs e :: o2)) with (RFP.fo_ts_evs (body ++ RF.FoTs e :: o2)).
+    unfold RFP.fo_ts_evs at 1. rewrite RFP.tab_app. fold (RFP.fo_ts_evs body). fold (RFP.fo_ts_evs (RF.FoTs e :: o2)).
+    rewrite Hpre, <- app_assoc. reflexivity. }
+  split; [exists pre; exact HL|]. split.
+  - destruct Hhead as [Hnil|(e0 & rest & Hc & Hb)].
+    + destruct Hadm as [Hpos|Hb].
+      * exfalso. exact (Hne Hpos Hnil).
+      * unfold L. rewrite Hnil. cbn [app RFP.fo_ts_evs flat_map]. exists e, (RFP.fo_ts_evs o2). split; [reflexivity|exact Hb].
+    + unfold L. rewrite Hc. cbn [app]. exists e0, (rest ++ RFP.fo_ts_evs (RF.FoTs e :: o2)). split; [reflexivity|exact Hb].
+  - intro audio. destruct Hinv as (Hch & _). rewrite RFR.ts_events_outs in Hch.
+    assert (Hall : RFP.fo_ts_evs mid = pre ++ L).
+    { rewrite <- HL, Hout2. unfold RFP.fo_ts_evs. cbn [flat_map app]. rewrite RFP.tab_app. cbn [flat_map]. now rewrite !app_nil_r. }
+    destruct (RFR.suffix_demux _ _ pre L audio Hch Hwf Hall) as (cc & _ & Hd). exists cc. exact Hd.
+Qed.
+Print Assumptions c06_httpts_any_join.
+
+(* ... and when nothing is cached and the first frame after the join is no
+   boundary: the PAT/PMT in force, the PAT/PMT blocks that follow, and from the
+   first boundary frame [e3] on every frame - again consecutive frames of the
+   publication up to its end, starting at a boundary, demultiplexing per track
+   to the remuxer's frames *)
+Theorem c06_httpts_any_join_waiting : forall b64 hex tool hc rtsp hls evs g' outs cf ob id o1 e o2 e3 o3,
+  RF.fan_outs b64 hex tool hc rtsp hls evs = (g', outs) -> Forall msg_ok (RFR.fev_msgs evs) ->
+  outs = RF.FoIn true :: (ob ++ RF.FoJoin GF.KTs id :: o1) ++ RF.FoTs e :: o2 ++ RF.FoTs e3 :: o3 ->
+  RFP.fo_ts_evs o1 = [] ->
+  existsb (fun x => GF.c_id x =? id) (GF.g_subs (GF.run cf (RF.fan_hist (RF.FoIn true :: ob)))) = false ->
+  let body := ob ++ RF.FoJoin GF.KTs id :: o1 in
+  RFP.cached_gops cf body = 0%nat -> te_boundary e = false ->
+  Forall (fun x => te_boundary x = false) (RFP.fo_ts_evs o2) -> te_boundary e3 = true ->
+  let L := RFP.fo_ts_evs (RF.FoTs e3 :: o3) in
+  exists c', GP.find_sub (GF.run cf (RF.fan_hist outs)) id = Some c' /\ GF.admitted c' = true /\
+    RF.fo_items outs (GF.c_out c') = RFP.pat_in_force body ++ RFP.pat_items o2 ++ RFP.ts_items (RF.FoTs e3 :: o3)
+    /\ (exists pre, RFP.fo_ts_evs outs = pre ++ L)
+    /\ forall audio : bool, exists cc,
+         demux_pid (if audio then pid_audio else pid_video) (ev_packets L)
+         = Some (expected_units cc (map te_frame (track_evs audio L))).
+Proof.
+  intros b64 hex tool hc rtsp hls evs g' outs cf ob id o1 e o2 e3 o3 Hrun Hm Hout Hq Hnew body Hcnt He Hq2 He3 L.
+  destruct (RFR.fan_outs_run b64 hex tool hc rtsp hls evs g' _ Hrun Hm) as (mid & x' & Hout2 & Hnin & Hinv & Hwf & _).
+  assert (Hsplit : exists o3', o3 = o3' ++ [RF.FoIn false] /\ mid = body ++ RF.FoTs e :: o2 ++ RF.FoTs e3 :: o3').
+  { rewrite Hout in Hout2. injection Hout2 as Hout2. fold body in Hout2.
+    destruct (exists_last (l := o3)) as (o3' & last & ->).
+    { intro E. subst o3. assert (Hl : (body ++ RF.FoTs e :: o2) ++ [RF.FoTs e3] = mid ++ [RF.FoIn false]) by (rewrite <- app_assoc; exact Hout2).
+      apply app_inj_tail in Hl. destruct Hl as [_ Hl]. discriminate. }
+    exists o3'.
+    assert (E : body ++ RF.FoTs e :: o2 ++ RF.FoTs e3 :: o3' ++ [last] = (body ++ RF.FoTs e :: o2 ++ RF.FoTs e3 :: o3') ++ [last]).
+    { symmetry. rewrite <- app_assoc. cbn [app]. rewrite <- app_assoc. reflexivity. }
+    rewrite E in Hout2.
+    apply app_inj_tail in Hout2. destruct Hout2 as [-> ->]. split; reflexivity. }
+  destruct Hsplit as (o3' & Ho3 & Hmid).
+  assert (Hbody : RFP.no_in_out body).
+  { unfold RFP.no_in_out in *. rewrite Hmid in Hnin. apply Forall_app in Hnin. exact (proj1 Hnin). }
+  assert (Hob : RFP.no_in_out ob /\ RFP.no_in_out o1).
+  { unfold RFP.no_in_out, body in *. apply Forall_app in Hbody. destruct Hbody as [A B]. inversion B; subst. now split. }
+  destruct Hob as [Hob Ho1].
+  destruct (RFP.httpts_join_items_waiting cf ob id o1 Hob Ho1 Hq Hnew e o2 e3 o3 Hcnt He Hq2 He3) as (c' & Hf & _ & Ha & Hitems).
+  cbv zeta in Hf, Hitems. rewrite <- Hout in Hf, Hitems. fold body in Hitems.
+  exists c'. split; [exact Hf|]. split; [exact Ha|]. split; [exact Hitems|].
+  assert (HL : RFP.fo_ts_evs outs = (RFP.fo_ts_evs (body ++ RF.FoTs e :: o2)) ++ L).
+  { rewrite Hout. fold body. unfold L.
+    replace (RF.FoIn true :: body ++ RF.FoTs e :: o2 ++ RF.FoTs e3 :: o3) with ((RF.FoIn true :: body ++ RF.FoTs e :: o2) ++ RF.FoTs e3 :: o3)
+      by (cbn [app]; rewrite <- app_assoc; reflexivity).
+    unfold RFP.fo_ts_evs at 1. rewrite RFP.tab_app. reflexivity. }
+  split; [eexists; exact HL|].
+  intro audio. destruct Hinv as (Hch & _). rewrite RFR.ts_events_outs in Hch.
+  assert (Hall : RFP.fo_ts_evs mid = RFP.fo_ts_evs (body ++ RF.FoTs e :: o2) ++ L).
+  { rewrite <- HL, Hout2. unfold RFP.fo_ts_evs. cbn [flat_map app]. rewrite RFP.tab_app. cbn [flat_map]. now rewrite !app_nil_r. }
+  destruct (RFR.suffix_demux _ _ _ L audio Hch Hwf Hall) as (cc & _ & Hd). exists cc. exact Hd.
+Qed.
+Print Assumptions c06_httpts_any_join_waiting.
+
+(* An RTSP player that joins at ANY point (DESCRIBE is answered once the
+   remuxer has announced its SDP; SETUP; PLAY), without OutWaitKeyFrameFlag or
+   while the group knows no video codec: it is sent the SDP in force and then
+   every packet the remuxer hands the group from PLAY on - a tail of the
+   remuxer's packet stream over the published messages ([run_rtsp]: what
+   c06_rtp_video / c06_rtp_aac / c06_rtp_raw say of each message's packets
+   holds of the player's stream from its starting point on). *)
+Theorem c06_rtsp_any_join : forall b64 hex tool hc hls evs g' outs cf ob id o1,
+  RF.fan_outs b64 hex tool hc true hls evs = (g', outs) -> Forall msg_ok (RFR.fev_msgs evs) ->
+  outs = (RF.FoIn true :: ob ++ [RF.FoJoin GF.KRtsp id; RF.FoPlay id]) ++ o1 ->
+  existsb (fun x => GF.c_id x =? id) (GF.g_subs (GF.run cf (RF.fan_hist (RF.FoIn true :: ob)))) = false ->
+  GF.g_sdp (GF.run cf (RF.fan_hist (RF.FoIn true :: ob))) <> None ->
+  GF.cf_rtsp_wait cf && GF.g_video_known (GF.run cf (RF.fan_hist (RF.FoIn true :: ob))) = false ->
+  exists c', GP.find_sub (GF.run cf (RF.fan_hist outs)) id = Some c' /\
+    RF.fo_items outs (GF.c_out c') = RFP.sdp_in_force ob ++ RFP.rtp_items o1
+    /\ exists pre, RFR.rout_rtps (run_rtsp b64 hex tool (RFR.fev_rins evs)) = pre ++ RFR.fo_rtps o1.
+Proof.
+  intros b64 hex tool hc hls evs g' outs cf ob id o1 Hrun Hm Hout Hnew Hsdp Hw.
+  destruct (RFR.fan_outs_run b64 hex tool hc true hls evs g' outs Hrun Hm) as (mid & x' & Hout2 & Hnin & _ & _ & Hr).
+  specialize (Hr eq_refl).
+  assert (Hsplit : exists o1', o1 = o1' ++ [RF.FoIn false] /\ mid = (ob ++ [RF.FoJoin GF.KRtsp id; RF.FoPlay id]) ++ o1').
+  { rewrite Hout in Hout2. cbn [app] in Hout2. injection Hout2 as Hout2.
+    destruct (exists_last (l := o1)) as (o1' & last & ->).
+    { intro E. subst o1. rewrite app_nil_r in Hout2.
+      replace (ob ++ [RF.FoJoin GF.KRtsp id; RF.FoPlay id]) with ((ob ++ [RF.FoJoin GF.KRtsp id]) ++ [RF.FoPlay id]) in Hout2
+        by (rewrite <- app_assoc; reflexivity).
+      apply app_inj_tail in Hout2. destruct Hout2 as [_ Hl]. discriminate. }
+    exists o1'. rewrite app_assoc in Hout2. apply app_inj_tail in Hout2. destruct Hout2 as [-> ->]. split; reflexivity. }
+  destruct Hsplit as (o1' & Ho1 & Hmid).
+  assert (Hob : RFP.no_in_out ob).
+  { unfold RFP.no_in_out in *. rewrite Hmid in Hnin. apply Forall_app in Hnin. destruct Hnin as [A _]. apply Forall_app in A. exact (proj1 A). }
+  destruct (RFP.rtsp_join_items_open cf ob id Hob Hnew Hsdp o1 Hw) as (c' & Hf & _ & Hitems).
+  rewrite <- Hout in Hf, Hitems. exists c'. split; [exact Hf|]. split; [exact Hitems|].
+  rewrite <- Hr, Hmid, Ho1. rewrite !RFR.fo_rtps_app. unfold RFR.fo_rtps at 2 4. cbn [flat_map app]. rewrite !app_nil_r. eexists. reflexivity.
+Qed.
+Print Assumptions c06_rtsp_any_join.
+
+(* ... and with OutWaitKeyFrameFlag once the group knows a video codec: nothing
+   during [q] - no packet of it passes lal's GOP-start test (C13's model of
+   IsAvcBoundary / IsHevcBoundary, on packets of the video track) -, then the
+   first packet that does, [p], and every packet after it: again a tail of the
+   remuxer's packet stream, beginning at a packet that starts a GOP. *)
+Theorem c06_rtsp_any_join_gate : forall b64 hex tool hc hls evs g' outs cf ob id q a p pt o2,
+  RF.fan_outs b64 hex tool hc true hls evs = (g', outs) -> Forall msg_ok (RFR.fev_msgs evs) ->
+  let pre := RF.FoIn true :: ob ++ [RF.FoJoin GF.KRtsp id; RF.FoPlay id] in
+  outs = pre ++ q ++ RF.FoRtp a p :: o2 ->
+  existsb (fun x => GF.c_id x =? id) (GF.g_subs (GF.run cf (RF.fan_hist (RF.FoIn true :: ob)))) = false ->
+  GF.g_sdp (GF.run cf (RF.fan_hist (RF.FoIn true :: ob))) <> None ->
+  GF.cf_rtsp_wait cf = true -> GF.g_video_known (GF.run cf (RF.fan_hist (RF.FoIn true :: ob))) = true ->
+  GR.quiet cf (GF.run cf (RF.fan_hist pre)) (RF.fan_hist q) ->
+  GF.rtp_pt (RF.fan_raw a p) = Some pt -> GR.rtp_boundary_at (GF.run cf (RF.fan_hist (pre ++ q))) (RF.fan_raw a p) = true ->
+  exists c', GP.find_sub (GF.run cf (RF.fan_hist outs)) id = Some c' /\ GR.rtsp_admitted cf c' = true /\
+    RF.fo_items outs (GF.c_out c') = RFP.sdp_in_force ob ++ RFP.rtp_items (RF.FoRtp a p :: o2)
+    /\ exists before, RFR.rout_rtps (run_rtsp b64 hex tool (RFR.fev_rins evs)) = before ++ (a, p) :: RFR.fo_rtps o2.
+Proof.
+  intros b64 hex tool hc hls evs g' outs cf ob id q a p pt o2 Hrun Hm pre Hout Hnew Hsdp Hw Hvk Hq Hpt Hb.
+  destruct (RFR.fan_outs_run b64 hex tool hc true hls evs g' outs Hrun Hm) as (mid & x' & Hout2 & Hnin & _ & _ & Hr).
+  specialize (Hr eq_refl).
+  assert (Hsplit : exists o2', o2 = o2' ++ [RF.FoIn false] /\ mid = (ob ++ [RF.FoJoin GF.KRtsp id; RF.FoPlay id]) ++ q ++ RF.FoRtp a p :: o2').
+  { rewrite Hout in Hout2. unfold pre in Hout2. cbn [app] in Hout2. injection Hout2 as Hout2.
+    destruct (exists_last (l := o2)) as (o2' & last & ->).
+    { intro E. subst o2.
+      replace ((ob ++ [RF.FoJoin GF.KRtsp id; RF.FoPlay id]) ++ q ++ [RF.FoRtp a p])
+        with (((ob ++ [RF.FoJoin GF.KRtsp id; RF.FoPlay id]) ++ q) ++ [RF.FoRtp a p]) in Hout2 by (rewrite <- app_assoc; reflexivity).
+      apply app_inj_tail in Hout2. destruct Hout2 as [_ Hl]. discriminate. }
+    exists o2'.
+    assert (E : (ob ++ [RF.FoJoin GF.KRtsp id; RF.FoPlay id]) ++ q ++ RF.FoRtp a p :: o2' ++ [last]
+                = ((ob ++ [RF.FoJoin GF.KRtsp id; RF.FoPlay id]) ++ q ++ RF.FoRtp a p :: o2') ++ [last]).
+    { symmetry. rewrite <- app_assoc. f_equal. rewrite <- app_assoc. reflexivity. }
+    rewrite E in Hout2. apply app_inj_tail in Hout2. destruct Hout2 as [-> ->]. split; reflexivity. }
+  destruct Hsplit as (o2' & Ho2 & Hmid).
+  assert (Hob : RFP.no_in_out ob).
+  { unfold RFP.no_in_out in *. rewrite Hmid in Hnin. apply Forall_app in Hnin. destruct Hnin as [A _]. apply Forall_app in A. exact (proj1 A). }
+  destruct (RFP.rtsp_join_items_gate cf ob id Hob Hnew Hsdp q a p pt o2 Hw Hvk Hq Hpt Hb) as (c' & Hf & Ha & Hitems).
+  cbv zeta in Hf, Hitems. fold pre in Hf, Hitems. rewrite <- Hout in Hf, Hitems.
+  exists c'. split; [exact Hf|]. split; [exact Ha|]. split; [exact Hitems|].
+  rewrite <- Hr, Hmid, Ho2.
+  replace (RF.FoRtp a p :: o2') with ([RF.FoRtp a p] ++ o2') by reflexivity. rewrite !RFR.fo_rtps_app.
+  change (RFR.fo_rtps [RF.FoRtp a p]) with [(a, p)]. change (RFR.fo_rtps [RF.FoIn false]) with (@nil (bool * rtp_packet)).
+  rewrite !app_nil_r. cbn [app].
+  exists ((RFR.fo_rtps ob ++ RFR.fo_rtps [RF.FoJoin GF.KRtsp id; RF.FoPlay id]) ++ RFR.fo_rtps q). rewrite <- !app_assoc. reflexivity.
+Qed.
+Print Assumptions c06_rtsp_any_join_gate.
+
+(* the GOP-start test looks at packets of the VIDEO track only (lal fix b536578):
+   on the pinned tree an Opus packet whose first payload byte reads as an IRAP
+   slice header (0xae = H.265 type 23) ended the wait, and the player was sent
+   the video from the middle of a GOP *)
+Definition opus_like_irap : bytes := [128; 97; 0; 1; 0; 0; 3; 192; 0; 0; 0; 0; 174; 1; 2].
+Theorem c06_rtsp_wait_audio_pinned_refuted :
+  GF.rtp_pt opus_like_irap = Some 97 /\
+  GF.rtp_is_boundary_pinned GF.VHevc opus_like_irap = true /\ GF.rtp_is_boundary GF.VHevc opus_like_irap = false /\
+  forall v raw, GF.rtp_is_video raw = true -> GF.rtp_is_boundary v raw = GF.rtp_is_boundary_pinned v raw.
+Proof.
+  split; [vm_compute; reflexivity|]. split; [vm_compute; reflexivity|]. split; [vm_compute; reflexivity|].
+  intros v raw H. destruct v; cbn [GF.rtp_is_boundary GF.rtp_is_boundary_pinned]; rewrite ?H; reflexivity.
+Qed.
+Print Assumptions c06_rtsp_wait_audio_pinned_refuted.
+
+(* non-vacuity of (7): sequence headers, a key frame, audio, an inter frame; then an
+   HTTP-TS subscriber (GOP cache of 1) and an RTSP player (OutWaitKeyFrameFlag)
+   join; audio, a key frame, an inter frame follow.  The HTTP-TS subscriber is
+   sent PAT/PMT, the cached GOP (two frames) and the three frames
+   that follow; the RTSP player the SDP and the video packets from the next key
+   frame on - the AAC packet in between is withheld. *)
+Definition ex_hc : HlsMuxer.cfg := {| c_stream := [115]; c_ms := 1000%Z; c_num := 6%Z; c_thr := 6%Z; c_mode := 0%Z |}.
+Definition ex_k2 : rmsg := mk_rmsg 9 1080 [23;1;0;0;0; 0;0;0;3; 101;136;129].
+Definition ex_p1 : rmsg := mk_rmsg 9 1040 [39;1;0;0;0; 0;0;0;3; 65;154;2].
+Definition ex_p2 : rmsg := mk_rmsg 9 1120 [39;1;0;0;0; 0;0;0;3; 65;154;3].
+Definition ex_join_evs : list RF.fevent :=
+  [RF.FMsg f23_vsh; RF.FMsg f23_ash; RF.FMsg ex_key; RF.FMsg ex_a1; RF.FMsg ex_p1; RF.FJoinTs 1; RF.FJoinRtsp 2;
+   RF.FMsg ex_a2; RF.FMsg ex_k2; RF.FMsg ex_p2].
+Definition item_kind (i : RF.fitem) : N :=
+  match i with RF.ITs _ => 3 | RF.IPat _ => 2 | RF.ISdp _ => 4 | RF.IRtp a _ => 50 + (if a then 1 else 0) | RF.INone => 9 end.
+Example c06_join_nonvacuous :
+  let outs := snd (RF.fan_outs (fun x => x) (fun x => x) [108] ex_hc true false ex_join_evs) in
+  map (fun x => (fst x, map item_kind (snd x))) (RF.fan_consumers (RF.fan_cfg 1 true) outs)
+  = [(1, GF.KTs, [2; 3; 3; 3; 3; 3]); (2, GF.KRtsp, [4; 50; 50])]
+  /\ map te_boundary (RFP.fo_ts_evs outs) = [true; false; true; false; false].
+Proof. vm_compute. split; reflexivity. Qed.
